@@ -129,3 +129,24 @@ pub mod dev {
         std::io::Error::other("verif: injected device failure")
     }
 }
+
+/// H6: named scheduling points. A no-op unless the harness installs a callback; never called
+/// while a lock is held by the caller unless the point's name says so.
+pub mod sched {
+    use std::sync::{Arc, RwLock};
+
+    pub type Callback = Arc<dyn Fn(&'static str) + Send + Sync>;
+    static CALLBACK: RwLock<Option<Callback>> = RwLock::new(None);
+
+    pub fn install(callback: Option<Callback>) {
+        *CALLBACK.write().unwrap() = callback;
+    }
+
+    #[inline]
+    pub(crate) fn point(name: &'static str) {
+        let callback = CALLBACK.read().unwrap().clone();
+        if let Some(callback) = callback {
+            callback(name);
+        }
+    }
+}
